@@ -26,6 +26,16 @@ Proof.
   apply sqrt_price_to_tick_bucket; unfold G; lia.
 Qed.
 
+(* the bucket of MinCurrentTick (a legal current tick, see types/constants.go) *)
+Lemma bucket_min_current_main s st st1 :
+  tick_to_sqrt_price MinCurrentTick = Ok st -> tick_to_sqrt_price MinInitializedTick = Ok st1 -> st <= s < st1 ->
+  calculate_sqrt_price_to_tick s = Ok MinCurrentTick.
+Proof.
+  intros E0 E1 Hs. consts.
+  apply sqrt_ok_inv in E0; [|lia]. apply sqrt_ok_inv in E1; [|lia]. subst.
+  rewrite Hc3_, Hc1_ in *. apply sqrt_price_to_tick_bucket_min_current. exact Hs.
+Qed.
+
 Lemma top_edge_main sm : tick_to_sqrt_price MaxTick = Ok sm -> calculate_sqrt_price_to_tick sm = Ok MaxTick.
 Proof.
   intros E. consts. apply sqrt_ok_inv in E; [|lia]. subst. rewrite Hc2_. apply sqrt_price_to_tick_top.
